@@ -14,7 +14,7 @@
 import ast
 import re
 
-from sa.interp import Interp, Scenario, Sym, Const, Bytes, render, render_items, merge_consts
+from sa.interp import alpha, Interp, Scenario, Sym, Const, Bytes, render, render_items, merge_consts
 from sa.loader import AnalysisError, dotted
 from sa.cfg import CFG, calls_in
 from sa import guards, codec, keyaction, tables
@@ -202,9 +202,9 @@ def check_encrypt_keyblob(rep, prog):
             rep.violation('C06.3', 'PrivKey.encrypt_keyblob', '%d _encrypt calls' % len(enc), 'expected one encryption of the secret material', where=fi.where)
             continue
         a = enc[0][1]
-        M = 'EACH(pf in self.__privfields__;getattr(self, pf).to_mpibytes())'
+        M = 'EACH($1 in self.__privfields__;getattr(self, $1).to_mpibytes())'
         exp_pt = '%s HASH(sha1;%s)' % (M, M)
-        rep.check(a[0] == exp_pt, 'C06.3', 'PrivKey.encrypt_keyblob', 'plaintext %s' % a[0],
+        rep.check(alpha(a[0]) == exp_pt, 'C06.3', 'PrivKey.encrypt_keyblob', 'plaintext %s' % a[0],
                   'the protected plaintext is the private MPIs followed by their SHA-1 (RFC 4880 5.5.3)', where=fi.where, expected=exp_pt, found=a[0])
         rep.check(a[1:] == ['self.s2k.derive_key(passphrase)', 'enc_alg', 'enc_alg.gen_iv()'], 'C06.3', 'PrivKey.encrypt_keyblob', '_encrypt key/alg/iv %s' % a[1:],
                   'encryption uses the passphrase-derived key, the chosen cipher and the IV stored in the specifier', where=fi.where)
